@@ -239,6 +239,11 @@ def gen_script(rng, max_ops, profile):
                 if c not in asg:
                     asg.append(c)
             rcand = [] if deps else [p for p in sorted(have) if is_static(p) and p not in padd and p not in asg]
+            if not depth and asg:
+                # immediate edit: a removal may also name a component the entity does not own -- a dependent that arrives with an
+                # assigned master (it stays, default-constructed) or something unrelated (nothing happens)
+                pool_ = (closure(set(have) | set(asg)) if rng.chance(2, 3) else set(pals)) if (deps or rng.chance(1, 3)) else set(have)
+                rcand = [p for p in sorted(pool_) if is_static(p) and p not in asg]
             if depth and h in st.pending_new:
                 rcand = []      # its components are assign commands of the same pack (known finding C05/pack-assign-then-remove-same-component)
             rem = []
